@@ -538,5 +538,6 @@ func Run(r *evid.Run) {
 	r.Bound("write faults: %d lengths x 6 shapes x failing Write call index 1..14 x short-write lengths {0,1,len/2,len-1,len (everything accepted yet an error returned)} on token-level Encoders and on MarshalWrite (failing once / from then on)", len(fl))
 	sequences(r)
 	resets(r)
+	smallValues(r)
 	_ = io.EOF
 }
